@@ -189,3 +189,62 @@ func deepGuardStrings(d deepInstr) []string {
 	}
 	return out
 }
+
+// factStrings: the comparison facts implied by guard g, written over the root function's values: the comparison itself, or -
+// when g tests the boolean result of an in-package helper for true - the comparisons the helper's (single) returned expression
+// is a conjunction of, plus the guards of that return.
+func factStrings(g guard, chain []*ssa.Call, depth int) []string {
+	var out []string
+	if cf, ok := g.asCmp(); ok {
+		env := provEnv{chain: chain}
+		out = append(out, symOf(cf.x, env).String()+" "+cf.op.String()+" "+symOf(cf.y, env).String())
+		return out
+	}
+	v, pol := g.boolVal()
+	call, ridx := boolResultCall(v)
+	if call == nil || !pol || depth > 2 {
+		return out
+	}
+	cal := staticCallee(&call.Call)
+	if cal == nil || cal.Blocks == nil {
+		return out
+	}
+	var rets []*ssa.Return
+	instrs(cal, func(b *ssa.BasicBlock, i int, in ssa.Instruction) {
+		if r, ok := in.(*ssa.Return); ok && ridx < len(r.Results) {
+			if k, isK := returnedValue(r, ridx).(*ssa.Const); isK && k.Value != nil && k.Value.String() == "false" {
+				return // cannot be the return that produced true
+			}
+			rets = append(rets, r)
+		}
+	})
+	if len(rets) != 1 {
+		return out
+	}
+	sub := append(append([]*ssa.Call{}, chain...), call)
+	ret := rets[0]
+	for _, g2 := range guardsOf(ret.Block()) {
+		out = append(out, factStrings(g2, sub, depth+1)...)
+	}
+	rv := returnedValue(ret, ridx)
+	if k, isK := rv.(*ssa.Const); !(isK && k.Value != nil) {
+		for _, g2 := range expandGuard(guard{cond: rv, val: true, blk: ret.Block()}, 0) {
+			out = append(out, factStrings(g2, sub, depth+1)...)
+		}
+	}
+	return out
+}
+
+// deepFactStrings: factStrings of every guard that holds at a deep instruction (own block and call-site blocks).
+func deepFactStrings(d deepInstr) []string {
+	var out []string
+	for _, g := range guardsOf(d.in.Block()) {
+		out = append(out, factStrings(g, d.calls, 0)...)
+	}
+	for i := len(d.calls) - 1; i >= 0; i-- {
+		for _, g := range guardsOf(d.calls[i].Block()) {
+			out = append(out, factStrings(g, d.calls[:i], 0)...)
+		}
+	}
+	return out
+}
